@@ -191,6 +191,12 @@ def conditions(prop, tier):
     q = tier == 'quick'
     t = 280 if q else 1700
     out = []
+    if prop == 'C02':
+        # "unchanged by anything that is not a token" includes whatever the same parser object lexed before: the lexer must be
+        # back in its initial state (line 1, INITIAL) whenever parse() starts
+        return [dict(name='C02.parser-fresh-lexer', fn='parse_wrapper', fixed={}, timeout=t,
+                     bounds='SmiV2Parser.parse with a scripted yacc object: whatever the previous text left behind (any of the 5 lexer states, '
+                            'line advanced by an unbounded amount, success or error), the next parse starts from a fresh lexer')]
     if prop == 'C12':
         return [dict(name='C12.parser-reset', fn='parse_wrapper', fixed={}, timeout=t,
                      bounds='SmiV2Parser.parse with a scripted yacc object: result None/empty/modules/parser error/lexer error, lexer line advanced by '
@@ -221,6 +227,8 @@ def conditions(prop, tier):
 
 
 def selftests(prop):
+    if prop == 'C02':
+        return [('parse_wrapper', dict(outcome=2, advance=0, st=0))]
     return [('p_error_cond', dict(has_tok=True, ti=5, lineno=7, v='x')),
             ('truncate', dict(fam=5, k=200)), ('mutate', dict(fam=0, op=0, k=200, ti=0)),
             ('mutate', dict(fam=0, op=2, k=3, ti=4)), ('parse_wrapper', dict(outcome=2, advance=0, st=0))]
